@@ -267,3 +267,83 @@ CHECKS["C17"] = dict(
     jobs=[dict(cmd="c17mem", tiers=["quick", "thorough"], timeout=1500),
           dict(cmd="c17hyb", tiers=["quick", "thorough"], timeout=2400)],
 )
+
+
+CHECKS["C04"] = dict(
+    title="Recovery after a crash at any point is consistent",
+    level="fault_enumeration",
+    rule=("workloads = seeded single-client sequences of 8..32 (quick) / 8..48 (thorough) steps per restart cycle over 3..8 keys: insert "
+          "(28 B .. 3 pages), overwrite, remove, wait(), flush hold/release (multi-entry batches), memory eviction; 1..3 (quick) / "
+          "1..4 (thorough) crash/restart cycles; both write policies, tombstone log on/off, blob index 4/8 KiB, blocks 16/32/64 KiB, "
+          "1..2 flushers, compression none/zstd/lz4. The recording io engine gives the totally ordered device write log; wait() "
+          "returns are ack markers with the log position. Crash images = base image + EVERY prefix of the issued writes (strided "
+          "only beyond 120 / 400 writes) + page-granular tears of the next write (page prefixes, two seeded page subsets, "
+          "last-page-only). Every image is reopened in quiet mode by the real recovery code and every key is looked up. Oracle "
+          "from the op log: a hit must be a version whose insert was issued before the crash point; while no block was reclaimed a "
+          "key whose latest acknowledged op is an insert reads that version or a later issued one (never older, never a miss "
+          "unless a delete was issued later), an acknowledged delete with the log on never yields an older version; reopen must "
+          "not fail or panic. One crash image (seeded) is the state the next cycle restarts from, the op history carries over. "
+          "evaluations = crash images reopened and judged; non-trivial = image on which some key had an acknowledged op; distinct = "
+          "hash of the image content."),
+    exhaustive_part="per workload: every write-boundary crash point of the recorded log (when the log has at most 120 / 400 writes)",
+    assumptions=HYB_ASSUME[:2] + [
+        "a crash preserves a prefix of the device writes in issue order, the last one possibly torn at page granularity (the property's fault model); pages are atomic",
+        "the device is sized so that nothing is reclaimed, except in 1 plan of 6 where reclaim is provoked and only the weak clause is judged from the first clean page on",
+        "under write-on-eviction an insert counts as acknowledged only when memory was evicted before the wait()",
+        "the real psync engine on a real FsDevice directory (tmpfs) sits behind the recording io wrapper (feature `verif`)",
+    ],
+    min_nontrivial=20,
+    jobs=[dict(cmd="c04", tiers=["quick", "thorough"], timeout=3000)],
+)
+
+CHECKS["C03"] = dict(
+    title="Corrupted or misdirected disk bytes never surface as a cached value",
+    level="fault_enumeration",
+    rule=("images = device directories produced by seeded real workloads (5..14 keys quick / 5..24 thorough, entries 28 B .. 3 pages, "
+          "overwrites, removes, multi-entry blobs via the flush hold, tombstone log on/off, compression none/zstd/lz4 via the hook, "
+          "blob index 4/8 KiB, 1..2 flushers, 1 in 4 on a wrapped device whose blocks were reclaimed and reused). For EVERY page of "
+          "every partition file (sampled only beyond 320 / 4096 pages): bit flip at a seeded offset, bit flip inside the used bytes, "
+          "zero page, swap with another page of the same block, swap with the same and with a random page of another block, "
+          "replacement by up to two older generations of the page taken from the write log; plus targeted flips in every blob-index "
+          "field (checksum, count, per-entry hash/sequence/offset/len) and every entry-header field (key_len, value_len, hash, "
+          "sequence, checksum, magic, compression incl. every other valid tag) located by the independent parser, flips in entry "
+          "bodies and tombstone slots, plus seeded sets of 2..4 faults. Each faulted image is reopened in quiet mode and ALL keys "
+          "are looked up. Second monitor: on the live store, reads of each served entry are perturbed (header/body flips, zero "
+          "page, io error, another entry's page = misdirected read). Oracle: miss, error, or a bit-exact self-validating value "
+          "whose embedded key is the requested key and whose version was really inserted; reopen must succeed; no panic / abort. "
+          "evaluations = faulted images reopened + live faulted lookups; non-trivial = the fault changed at least one answer "
+          "relative to the unfaulted image; distinct = hash(configuration, workload, fault set)."),
+    exhaustive_part="single-page fault kinds over every page of each image (images with at most 320 / 4096 pages)",
+    assumptions=HYB_ASSUME[1:2] + [
+        "values are Vec<u8>, keys u64 (the built-in Code impls); other value types share the decode entry points but are not faulted here",
+        "multi-fault sets are sampled, not enumerated",
+        "a process abort is attributed to the case recorded in the progress file before the case started",
+    ],
+    min_nontrivial=20,
+    jobs=[dict(cmd="c03", tiers=["quick", "thorough"], timeout=3000)],
+)
+
+CHECKS["C09"] = dict(
+    title="Reusing disk space never damages live entries and never stalls writers",
+    level="exploration",
+    rule=("runs = (A) single sequential client writing 3..6 device capacities (capped at 700 / 2400 ops) of inserts (28 B .. 2 pages), "
+          "overwrites, removes, lookups and memory evictions over a live set of at most 1/8 of the device, (B) 3..6 owner tasks on a "
+          "4-worker runtime, each the only writer of its keys, same op mix; devices of 2*(flushers+threshold)+{0,1,2,4,8} blocks of "
+          "16/32/64 KiB, flushers 1..3, reclaimers 1..2, clean-block threshold 1..2, reinsertion filter none / every 2nd / every 3rd "
+          "hash, tombstone log on/off; device writes and reads are held at the io gates and released in seeded shuffled order. "
+          "Oracles: every lookup hit is bit-exact, for the requested key and (mode A, and own keys in mode B) the most recent "
+          "completed insert not followed by a remove; write log: no overlapping writes inside a block generation, no clean page "
+          "while a write to the block is in flight, every generation starts at blob 0; bounded progress: an op / wait() / close() "
+          "pending although the io wrapper was idle for 20 s with all gates released is a stall (busy for 240 s = inconclusive); at "
+          "the final quiescent point every key admitted by the reinsertion filter reads its latest version; with 1 flusher, 1 "
+          "reclaimer, no deletes and the default pickers a block completely written before another one was started is cleaned "
+          "first. Non-trivial = at least two blocks were reclaimed and reused; distinct = hash of the observed write completion "
+          "order and clean order."),
+    assumptions=HYB_ASSUME[1:3] + [
+        "clean_block_threshold = 0 is excluded (the engine never reclaims by construction)",
+        "the reinsertion clause is judged only at the final quiescent point (phase-separated)",
+        "write-on-insertion policy, so that every insert reaches the disk tier",
+    ],
+    min_nontrivial=10,
+    jobs=[dict(cmd="c09", tiers=["quick", "thorough"], timeout=3000)],
+)
